@@ -23,6 +23,7 @@ import (
 	"strings"
 
 	"github.com/sourcegraph/zoekt/index"
+	"github.com/sourcegraph/zoekt/internal/verifhook"
 )
 
 // merge merges the input shards into a compound shard in dstDir. It returns the
@@ -30,6 +31,7 @@ import (
 func merge(dstDir string, names []string) (string, error) {
 	var files []index.IndexFile
 	for _, fn := range names {
+		verifhook.FS("open", fn)
 		f, err := os.Open(fn)
 		if err != nil {
 			return "", nil
@@ -57,6 +59,7 @@ func merge(dstDir string, names []string) (string, error) {
 			return "", fmt.Errorf("zoekt-merge-index: %w", err)
 		}
 		for _, p := range paths {
+			verifhook.FS("remove", p)
 			if err := os.Remove(p); err != nil {
 				return "", fmt.Errorf("zoekt-merge-index: failed to remove simple shard: %w", err)
 			}
@@ -65,6 +68,7 @@ func merge(dstDir string, names []string) (string, error) {
 
 	// We only rename the compound shard if all simple shards could be deleted in the
 	// previous step. This guarantees we won't have duplicate indexes.
+	verifhook.FS("rename", tmpName, dstName)
 	if err := os.Rename(tmpName, dstName); err != nil {
 		return "", fmt.Errorf("zoekt-merge-index: failed to rename compound shard: %w", err)
 	}
